@@ -109,16 +109,25 @@ def finalString (H : Nat) (s : Sh) : String :=
 /-- initial holdings for mode E: page number p (1-based) is held by thread (p-1) % n, ascending -/
 def initialHeld (cap n t : Nat) : List Nat := (List.range cap).filter fun id => id % n = t
 
-def runScenario (cap : Nat) (full : Bool) (opsPer : List (List Tok)) (schedule : List Nat) : String :=
+/-- the configuration a scenario starts stepping from: the stack as constructed, every thread run up to its first atomic
+operation (harness: `Sched::prime`) -/
+def startSys (cap : Nat) (full : Bool) (opsPer : List (List Tok)) : Sys :=
   let H := (measure cap).innerLevelCount
   let n := opsPer.length
   let start := (List.range n).zip opsPer |>.map fun (tid, ops) =>
     advance cap tid { th := ⟨.idle, if full then [] else initialHeld cap n tid⟩, ops := ops, cur := "", res := "" }
-  let s0 : Sys := { sh := if full then Sh.full cap H else Sh.empty, ths := start.map (·.1), log := [],
-                    hist := (start.map (·.2)).reverse.flatten }
-  let s1 := schedule.foldl (stepSys cap H) s0
+  { sh := if full then Sh.full cap H else Sh.empty, ths := start.map (·.1), log := [], hist := (start.map (·.2)).reverse.flatten }
+
+/-- the schedule, then round-robin until every thread has finished -/
+def finalSys (cap : Nat) (full : Bool) (opsPer : List (List Tok)) (schedule : List Nat) : Sys :=
+  let H := (measure cap).innerLevelCount
+  let s1 := schedule.foldl (stepSys cap H) (startSys cap full opsPer)
   let total := (opsPer.map List.length).foldl (· + ·) 0
-  let s2 := drain cap H ((4 * H + 12) * (total + 1)) s1
+  drain cap H ((4 * H + 12) * (total + 1) * (total + 2)) s1
+
+def runScenario (cap : Nat) (full : Bool) (opsPer : List (List Tok)) (schedule : List Nat) : String :=
+  let H := (measure cap).innerLevelCount
+  let s2 := finalSys cap full opsPer schedule
   let heldStr := ";".intercalate (s2.ths.map fun x => joinOr "," (x.th.held.map fun id => toString (id + 1)))
   let nheld := (s2.ths.map fun x => x.th.held.length).foldl (· + ·) 0
   let got := drainPops cap H (cap + 1) s2.sh 0
